@@ -250,6 +250,16 @@ fn cmd_crash(args: &[String]) -> i32 {
             exit = 2;
         }
         let w = base.stats.get("writes_total").cloned().unwrap_or(0);
+        {
+            // the crash-free twin, so that the driver can tell what a crash added
+            let mut v = serde_json::to_value(&base).unwrap();
+            v["index"] = serde_json::json!(i * 100_000);
+            v["history"] = serde_json::json!(i);
+            v["crash_at"] = serde_json::json!(0);
+            v["base"] = serde_json::json!(true);
+            let mut l = out.lock();
+            let _ = writeln!(l, "{}", v);
+        }
         // which boundaries: all, or every distinct site once plus a seeded stratified sample
         let mut ks: Vec<u64> = Vec::new();
         if all || w <= sample {
